@@ -5,7 +5,8 @@
      arg0  configuration bits: D DisableSTS, L SSL, F DisableSTSFallback, S SASL PLAIN
      arg1  policy held before the first Connect: "" or "port,duration,receivedAgo[,failedAgo]" (seconds)
      arg2… "C" = a Connect call; "L<age>,<dial>,<hs>,<end>" = a connection script (age: scripted
-           seconds passing before the dial); "E<params joined by LF>" = a CAP event of that script.
+           seconds passing before the dial; end x = the peer hangs up together with its last line, so
+           that line's answer is not observed); "E<params joined by LF>" = a CAP event of that script.
    The clock starts at t0 and advances by the ages of the scripts a Connect call consumes. *)
 Require Import Bytes CapLib StsState Cap Sts.
 
@@ -63,13 +64,14 @@ Definition ns (secs : Z) : Z := (secs * second_ns)%Z.
 
 (* the scripts of one Connect call with their absolute dial times; when the scripts run
    out the dialer fails *)
-Fixpoint mk_scripts (now : Z) (legs : list dleg) : list conn_script :=
+Fixpoint mk_scripts (now : Z) (legs : list dleg) : list (conn_script * bool) :=
   match legs with
-  | [] => [mkConn false now true [] (EndClosed now)]
+  | [] => [(mkConn false now true [] (EndClosed now), false)]
   | l :: r =>
       let now' := (now + ns (dl_age l))%Z in
-      mkConn (dl_dial l) now' (dl_hs l) (List.map (fun ps => (now', ps)) (rev (dl_evs l)))
-             (if N.eqb (dl_end l) 101 then EndIOError else EndClosed now')
+      (mkConn (dl_dial l) now' (dl_hs l) (List.map (fun ps => (now', ps)) (rev (dl_evs l)))
+              (if N.eqb (dl_end l) 101 || N.eqb (dl_end l) 120 then EndIOError else EndClosed now'),
+       N.eqb (dl_end l) 120)
       :: mk_scripts now' r
   end.
 
@@ -116,13 +118,20 @@ Definition render_pol (now : Z) (s : strict_transport) : str :=
 
 Definition render_srv (s : strict_transport) : str := bs ";srv=" ++ show_Z (server_port cfg_port s).
 
-Definition render_leg (lc : conn_log * conn_script) : str :=
+(* with end mode x the answer to the script's last line is not observed *)
+Definition render_events (hung : bool) (nev : nat) (outs : list (list cap_out)) : str :=
+  if hung && Nat.eqb (length outs) nev && negb (Nat.eqb nev 0)
+  then concat (List.map (fun o => 59 :: render_outs10 o) (removelast outs)) ++ [59; 120]
+  else concat (List.map (fun o => 59 :: render_outs10 o) outs).
+
+Definition render_leg (lc : conn_log * (conn_script * bool)) : str :=
   let l := fst lc in
+  let c := fst (snd lc) in
   bs "[d=" ++ show_Z (l_port l) ++ comma ++
   (if negb (l_connected l) then [70]
    else (if l_tls l then [84] else [80]) ++
-        (if l_tls l && negb (cs_hs_ok (snd lc)) then [104]
-         else concat (List.map (fun outs => 59 :: render_outs10 outs) (l_outs l)))) ++ [93].
+        (if l_tls l && negb (cs_hs_ok c) then [104]
+         else render_events (snd (snd lc)) (length (cs_events c)) (l_outs l))) ++ [93].
 
 Definition render_ret (r : ret_class) : str :=
   match r with
@@ -137,11 +146,11 @@ Fixpoint run_connects (cfg : cap_cfg) (k : nat) (now : Z) (s : strict_transport)
   | [] => []
   | legs :: r =>
       let scripts := mk_scripts now legs in
-      let res := start_conn sort_strs cfg cfg_port s scripts in
+      let res := start_conn sort_strs cfg cfg_port s (List.map fst scripts) in
       let logs := fst (fst res) in
       let s' := snd res in
       let now' := match nth_error scripts (Nat.pred (length logs)) with
-                  | Some c => cs_dial_now c | None => now end in
+                  | Some c => cs_dial_now (fst c) | None => now end in
       bs "|C" ++ show_nat k ++ [58] ++ concat (List.map render_leg (combine logs scripts)) ++
       bs ";ret=" ++ render_ret (snd (fst res)) ++ bs ";pol=" ++ render_pol now' s' ++ render_srv s' ++
       run_connects cfg (S k) now' s' r
@@ -220,5 +229,5 @@ Definition run_C10 (suite : str) (args : list str) : option str :=
   else if streqb suite (bs "sts.policy") then Some (run_scenario args)
   else if streqb suite (bs "sts.expiry") then
     Some (match args with _ :: _ :: _ :: _ => run_expiry args | _ => bs "?short-case" end)
-  else if streqb suite (bs "sts.closeatack") then Some (bs "probe")   (* race probe: constant observation *)
+  else if streqb suite (bs "sts.closeatack") then Some (run_scenario args)
   else None.
